@@ -12,17 +12,34 @@ import TdModel.Gen.C16
 namespace TdModel.C16
 open TdModel TdModel.Codec
 
-/-- The codec configuration read from the source on this run. -/
+/-- The codec configuration of this run: every function field is the translation of the Go
+expression found in the current source (see the doc comments in `TdModel/Gen/C16.lean`), applied to
+the unsigned view of its arguments. -/
 def cfg : Cfg where
-  maxMsg := Facts.C16.maxMessageSize
-  abrThrW := Facts.C16.abrThrW
-  abrThrR := Facts.C16.abrThrR
+  lenRejects := fun n e => Facts.C16.lenRejects n e
+  outRejects := fun l => Facts.C16.outRejects l
+  misaligned := fun l => Facts.C16.misaligned l 4
+  isCode := fun l => !(Facts.C16.notCode l)
+  abrWords := fun l => (Facts.C16.abrWords l).toNat
+  abrShort := fun w => Facts.C16.abrShort w
   abrMark := Facts.C16.abrMark
-  abrGuard := Facts.C16.abrGuard
-  fullGuard := Facts.C16.fullGuard
-  fullMin := Facts.C16.fullMin
-  fullOver := Facts.C16.fullOver
-  padOver := Facts.C16.padOver
+  abrLong := fun b0 => Facts.C16.abrLong b0
+  abrRejects := fun n => Facts.C16.abrRejects n
+  abrBytes := fun n => Facts.C16.abrBytes n
+  fullRejects := fun n => Facts.C16.fullRejects n
+  fullEnvelope := Facts.C16.fullOver
+  fullExpand := fun n => Facts.C16.fullExpand n
+  fullInnerLo := fun n => Facts.C16.fullInnerLo n
+  fullInnerHi := fun n => Facts.C16.fullInnerHi n
+  fullPayload := fun n => Facts.C16.fullPayload n
+  fullCrcLo := fun n => Facts.C16.fullCrcLo n
+  fullCrcHi := fun n => Facts.C16.fullCrcHi n
+  fullCopyLo := fun n => Facts.C16.fullCopyLo n
+  fullCopyHi := fun n => Facts.C16.fullCopyHi n
+  fullWire := fun l => (Facts.C16.fullWire l).toNat
+  padEnvelope := Facts.C16.padOver
+  padOf := fun last => (Facts.C16.padOf last).toNat
+  padStrip := fun n => (Facts.C16.padStrip n).toNat
   tagAbridged := Facts.C16.tagAbridged
   tagIntermediate := Facts.C16.tagIntermediate
   tagPadded := Facts.C16.tagPadded
